@@ -13,5 +13,5 @@ javac -cp /opt/veriftools/tla/tla2tools.jar -d work/classes tla/overrides/BigNat
     | grep -E "No error has been found|Error" ) || { echo "BigNat self-test failed"; exit 1; }
 # pre-build the recorders in both profiles (checks rebuild incrementally against /repo's working tree)
 ( cd harness && cargo build --offline --release --bins 2>&1 | tail -2 && cargo build --offline --profile chk --bins 2>&1 | tail -2 )
-if [ -d leak ]; then ( cd leak && ./build.sh ) || true; fi
+( cd leak && cargo build --offline --release 2>&1 | tail -2 )
 echo "setup ok"
